@@ -1,6 +1,9 @@
 import RsslVerif.Lemmas.MetaText
 import RsslVerif.Lemmas.Meta
 import RsslVerif.Lemmas.MetaReach
+import RsslVerif.Lemmas.MetaReachTerm
+import RsslVerif.Lemmas.MetaFront
+import RsslVerif.Thm.C15
 /-!
 # C05 — reflection metadata agrees with the emitted source
 
@@ -17,7 +20,10 @@ open RsslVerif.Lemmas.Slots (ParamsOk paramsFor_ok)
 
 /-- Every syntactic fact the model relies on holds in the current source: how the three
     `DescriptorBinding` literals are filled, the shape of msl `generate_pipeline`, of the HLSL annotation
-    generators, of the formatter's register / attribute printers and of `build_pipeline`'s stage records. -/
+    generators, of the formatter's register / attribute printers, of `build_pipeline`'s stage records, of
+    `parse_pipeline` / `add_stage` (property order, order of the checks, last numthreads attribute wins, entry lookup
+    among all functions), of the places names are read from (name map vs cbuffer registry, Metal's cbuffer
+    globals) and of the thread group size attributes both exporters print. -/
 theorem source_shape_as_modelled :
     hlslCbufferEntry = ⟨true, true, true, true, false, true, false, true, true, false⟩ ∧
     hlslGlobalEntry = ⟨true, true, true, true, true, false, true, false, false, true⟩ ∧
@@ -29,7 +35,8 @@ theorem source_shape_as_modelled :
     hlslAnnotFacts = ⟨true, true, true, true, true, true, true, true, true, true, true, true, true, true, true,
                       true, true, true, true⟩ ∧
     attributeShapeAsModelled = true ∧ stagesCopyKindAndThreadGroupSize = true ∧
-    metadataIsExportersDescription = true ∧
+    metadataIsExportersDescription = true ∧ entryLookupIsByNameAmongAllFunctions = true ∧
+    frontFacts = ⟨true, true, true, true, true, true, true, true, true, true, true, true, true, true, true, true⟩ ∧
     (regOpen, regSep, regSpace, regClose) = (" : register(", ", ", "space", ")") := by decide
 
 /-- The two exporters use the same ObjectType ↦ DescriptorType table. -/
@@ -552,11 +559,10 @@ theorem excluded_declarations (p : Params) (n : String) (s : Option Nat) (ss bl 
 /-! ## used_sound_complete -/
 
 open RsslVerif.Model.MetaReach RsslVerif.Lemmas.MetaReach in
-/-- Metal: when the usage fixed point loop terminates (fuel not exhausted), a binding is marked used iff
-    some stage entry point reaches the global in the use graph (calls, bodies, default arguments, and the
-    initialisers of the globals on the way).  `_partial`: termination of the loop itself (fuel sufficiency)
-    is not proved here; every other step is. -/
-theorem used_sound_complete_partial {direct : Sym → List Sym} {keys : List Sym} {entries : List Nat} {fuel : Nat}
+/-- Metal: whenever the usage fixed point loop returns (with whatever fuel), a binding is marked used iff some
+    stage entry point reaches the global in the use graph (calls, bodies, default arguments, and the
+    initialisers of the globals on the way).  `usage_loop_terminates` shows that it always returns. -/
+theorem used_iff_reachable_of_result {direct : Sym → List Sym} {keys : List Sym} {entries : List Nat} {fuel : Nat}
     {req : Sym → List Sym} (hk : ∀ k ∈ keys, ∀ s ∈ direct k, s ∈ keys)
     (he : ∀ e ∈ entries, Sym.fn e ∈ keys) (h : recurse fuel keys direct = some req) (g : Nat) :
     usedBy req entries g = true ↔ ∃ e ∈ entries, Reach direct (.fn e) (.glob g) := by
@@ -565,6 +571,38 @@ theorem used_sound_complete_partial {direct : Sym → List Sym} {keys : List Sym
   constructor
   · rintro ⟨e, hem, hm⟩; exact ⟨e, hem, (hr _ (he e hem) _).1 hm⟩
   · rintro ⟨e, hem, hm⟩; exact ⟨e, hem, (hr _ (he e hem) _).2 hm⟩
+
+open RsslVerif.Model.MetaReach in
+/-- `GlobalUsageAnalysis::recurse` terminates: over `n` symbols (functions, globals, cbuffers — whatever key
+    order the hash map yields) the loop makes at most `n * n` modifying passes, because every such pass adds a
+    (symbol, required symbol) pair and there are at most `n * n` of them. -/
+theorem usage_loop_terminates {direct : Sym → List Sym} {keys : List Sym}
+    (hk : ∀ k ∈ keys, ∀ s ∈ direct k, s ∈ keys) :
+    ∃ req, recurse (keys.length * keys.length + 1) keys direct = some req :=
+  RsslVerif.Lemmas.MetaReachTerm.recurse_terminates hk
+
+open RsslVerif.Model.MetaReach in
+/-- **used_sound_complete** (Metal, full): for every use graph — any functions with bodies and default
+    arguments, any globals with initialisers that mention other globals or call functions, any key order — the
+    usage analysis returns, and a binding is reported used iff some stage entry point of the pipeline reaches
+    its global.  (A resource array or a bindless array is one global: mentioning any element mentions it.) -/
+theorem used_sound_complete {direct : Sym → List Sym} {keys : List Sym} {entries : List Nat}
+    (hk : ∀ k ∈ keys, ∀ s ∈ direct k, s ∈ keys) (he : ∀ e ∈ entries, Sym.fn e ∈ keys) :
+    ∃ req, recurse (keys.length * keys.length + 1) keys direct = some req ∧
+      ∀ g, usedBy req entries g = true ↔ ∃ e ∈ entries, Reach direct (.fn e) (.glob g) := by
+  obtain ⟨req, h⟩ := usage_loop_terminates hk
+  exact ⟨req, h, used_iff_reachable_of_result hk he h⟩
+
+/-- a use graph with a global (4) whose initialiser mentions another global (7), itself reached through a call -/
+def exampleDirect : RsslVerif.Model.MetaReach.Sym → List RsslVerif.Model.MetaReach.Sym
+  | .fn 0 => [.fn 1]
+  | .fn 1 => [.glob 4]
+  | .glob 4 => [.glob 7]
+  | _ => []
+
+example : Reach exampleDirect (.fn 0) (.glob 7) :=
+  Reach.step (m := .fn 1) (Reach.base (by decide))
+    (Reach.step (m := .glob 4) (Reach.base (by decide)) (Reach.base (by decide)))
 
 /-- the `is_used` flag of an entry: always true on HLSL (so a reachable binding is never reported unused),
     the membership test on Metal -/
@@ -647,6 +685,126 @@ theorem thread_group_size_ambiguous_witness :
 /-- the renamed entry point of the former defect: reported and emitted names are both `float16_t_0` -/
 example : reportStage false [{ name := "float16_t", emitted := "float16_t_0", attrs := [(8, 4, 1)] }]
       { stage := .Compute, entry := 0 } = some ⟨.Compute, "float16_t_0", some (8, 4, 1)⟩ := rfl
+
+/-! ## where the stage records come from (`parse_pipeline` / `add_stage`) -/
+
+open RsslVerif.Model.MetaFront RsslVerif.Lemmas.MetaFront in
+/-- A `Pipeline` block the front end accepts yields one stage record per stage property, in the order the
+    properties are written (not in a canonical stage order); each record points at the one function of the module
+    that carries the given name — a function with a body that is no template — and stores the last
+    `numthreads` attribute of exactly that function, for every stage kind alike. -/
+theorem stage_records_follow_properties {funcs : List FnSrc} {earlier : List String} {p : PipeSrc} {d : PipeDef}
+    (h : parsePipeline funcs earlier p = .ok d) :
+    d.stages.map (·.stage) = p.stages.map (·.1) ∧ d.stages ≠ [] ∧ d.dflt = p.dflt.getD 0 ∧
+    ∀ s ∈ d.stages, ∃ q ∈ p.stages, s.stage = q.1 ∧ fnIndices funcs q.2 0 = [s.entry] ∧
+      ∃ f, funcs[s.entry]? = some f ∧ f.name = q.2 ∧ f.hasBody = true ∧ f.isTemplate = false ∧
+        s.threadGroupSize = lastNumThreads f.attrs := by
+  obtain ⟨_, _, hd, hmap, hne, hall, _⟩ := parsePipeline_ok h
+  refine ⟨hmap, hne, hd, ?_⟩
+  intro s hs
+  obtain ⟨q, hq, hadd⟩ := hall s hs
+  obtain ⟨h1, h2, f, hf, hn, ht, hb, htg⟩ := addStage_ok hadd
+  exact ⟨q, hq, h1, h2, f, hf, hn, hb, ht, htg⟩
+
+open RsslVerif.Model.MetaFront RsslVerif.Lemmas.MetaFront in
+/-- `build_pipeline` copies `stage.thread_group_size` of the record; that is the value `reportStage` computes
+    from the attributes the entry function is emitted with, whenever the emitted function table carries the same
+    attributes as the front end's — so for every stage kind: reported size = last emitted attribute. -/
+theorem reported_size_is_the_typers_record {funcs : List FnSrc} {earlier : List String} {p : PipeSrc} {d : PipeDef}
+    (h : parsePipeline funcs earlier p = .ok d) {fdefs : List FuncDef} (msl : Bool)
+    (hsame : ∀ (i : Nat) (f : FnSrc), funcs[i]? = some f → ∃ g : FuncDef, fdefs[i]? = some g ∧ g.attrs = f.attrs) :
+    ∀ s ∈ d.stages, ∃ r, reportStage msl fdefs { stage := s.stage, entry := s.entry } = some r ∧
+      r.stage = s.stage ∧ r.threadGroupSize = s.threadGroupSize := by
+  intro s hs
+  obtain ⟨_, _, _, hall⟩ := stage_records_follow_properties h
+  obtain ⟨_, _, _, _, f, hf, _, _, _, htg⟩ := hall s hs
+  obtain ⟨g, hg, hga⟩ := hsame _ f hf
+  refine ⟨{ stage := s.stage, entryPoint := if msl then mslEntryName s.stage else g.emitted,
+            threadGroupSize := lastNumThreads g.attrs }, by simp [reportStage, hg], rfl, ?_⟩
+  simp [htg, hga]
+
+open RsslVerif.Model.MetaFront RsslVerif.Lemmas.MetaFront in
+/-- the pipelines of an accepted file have pairwise different names: selecting by name is unambiguous -/
+theorem pipeline_names_distinct {funcs : List FnSrc} {ps : List PipeSrc} {ds : List PipeDef}
+    (h : parsePipelines funcs [] ps = .ok ds) :
+    ds.map (·.name) = ps.map (·.name) ∧ (ds.map (·.name)).Pairwise (· ≠ ·) := by
+  rcases parsePipelines_names h with ⟨h1, h2⟩ | h3
+  · exact ⟨h1, by simpa [h1] using h2⟩
+  · exact absurd List.Pairwise.nil h3
+
+/-! ## the names that are reported (discharging `NameKept`) -/
+
+open RsslVerif.Model.MetaFront RsslVerif.Lemmas.MetaFront RsslVerif.Model in
+/-- **Arbitrary names.** Whatever the source names are — reserved in the target language, overloaded, equal to
+    another symbol's generated name — two different symbols (functions, globals, structs, namespaces) that the
+    name map places in the same scope never receive the same name.  Since the HLSL stage record and every
+    binding name are read from the same map the definitions are printed from, a reported entry point name denotes
+    exactly one emitted function of its scope and a reported binding name exactly one emitted global of its
+    scope. -/
+theorem reported_name_denotes_one_symbol {reserved : List String} {src : NameSrc} {names : List Names.Named}
+    (h : Names.build reserved src.input = .ok names)
+    {k₁ k₂ : Names.Kind} {i j : Nat} {n₁ n₂ : String}
+    (h₁ : leaf names k₁ i = .ok n₁) (h₂ : leaf names k₂ j = .ok n₂)
+    (hk₁ : k₁ ≠ .localVar) (hk₂ : k₂ ≠ .localVar) (hne : (k₁, i) ≠ (k₂, j))
+    (hscope : (Names.lookup names ⟨k₁, i⟩).map (·.scope) = (Names.lookup names ⟨k₂, j⟩).map (·.scope)) :
+    n₁ ≠ n₂ := by
+  obtain ⟨a, ha, rfl⟩ := leaf_ok h₁
+  obtain ⟨b, hb, rfl⟩ := leaf_ok h₂
+  obtain ⟨ham, has⟩ := lookup_mem ha
+  obtain ⟨hbm, hbs⟩ := lookup_mem hb
+  apply RsslVerif.Thm.C15.injective_per_scope h a ham b hbm
+  · rw [has]; exact hk₁
+  · rw [hbs]; exact hk₂
+  · simpa [ha, hb] using hscope
+  · rw [has, hbs]; intro e; apply hne; cases e; rfl
+
+open RsslVerif.Model.MetaFront RsslVerif.Lemmas.MetaFront RsslVerif.Model in
+/-- no reported name is a reserved word of the target language -/
+theorem reported_name_not_reserved {reserved : List String} {src : NameSrc} {names : List Names.Named}
+    (h : Names.build reserved src.input = .ok names) {k : Names.Kind} {i : Nat} {n : String}
+    (hl : leaf names k i = .ok n) : n ∉ reserved := by
+  obtain ⟨a, ha, rfl⟩ := leaf_ok hl
+  exact RsslVerif.Thm.C15.never_reserved h a (lookup_mem ha).1
+
+open RsslVerif.Model.MetaFront RsslVerif.Lemmas.MetaFront RsslVerif.Model in
+/-- `NameKept` as a theorem: a function (or global) whose source name no other symbol of its scope carries and
+    that is not reserved is printed and reported under exactly that name, so for such entry points the reported
+    name is the name written in the `Pipeline` block. -/
+theorem name_kept_when_unique_and_free {reserved : List String} {src : NameSrc} {names : List Names.Named}
+    (h : Names.build reserved src.input = .ok names) {sc : Option Nat} (hsc : sc ∈ Names.scopeIds src.input)
+    {n : String} {sym : Names.Sym}
+    (hmem : (n, sym) ∈ Names.scopeSyms src.input sc)
+    (huniq : ((Names.scopeSyms src.input sc).filter (fun p => p.1 == n)).map (·.2) = [sym])
+    (hres : n ∉ reserved) : (⟨sym, sc, n⟩ : Names.Named) ∈ names :=
+  RsslVerif.Thm.C15.verbatim h hsc hmem huniq hres
+
+/-- HLSL prints and reports a cbuffer block under its *source* name (`get_constant_buffer_name` reads the
+    registry, not the name map).  Negation witness of "every reported name denotes one declaration" on the current
+    tables: `Texture2D<float4> float16_t; cbuffer float16_t_0 { .. }` — the global's name is reserved in HLSL and
+    becomes `float16_t_0`, the cbuffer keeps `float16_t_0`, and the metadata holds two entries of that name
+    (replayed on the real compiler by the corpus). -/
+theorem hlsl_cbuffer_bypasses_name_map_witness :
+    (RsslVerif.Model.Names.build hlslReserved
+        (RsslVerif.Model.MetaFront.NameSrc.input { nss := [], structs := [], globals := [(none, "float16_t")], funcs := [] })).toOption.bind
+      (fun names => (RsslVerif.Model.MetaFront.leaf names .global 0).toOption) = some "float16_t_0" ∧
+    (hlslMeta (paramsFor .HlslForDirectX false) 0
+        [.global "float16_t_0" none false (some .Texture2D) .no false .extern, .cbuffer "float16_t_0" none]).toOption.map
+      (·.map fun g => g.bindings.map (·.name)) = some [["float16_t_0", "float16_t_0"]] := by
+  constructor
+  · decide +kernel
+  · decide +kernel
+
+/-- Bindings are reported under their leaf name.  Negation witness: `Texture2D<float4> g_t;
+    namespace NS1 { Texture2D<float4> g_t; }` — the two globals live in different scopes, both keep `g_t`, and
+    the metadata (and on Metal the argument buffer) holds two entries of that name. -/
+theorem same_leaf_name_in_two_namespaces_witness :
+    (RsslVerif.Model.Names.build mslReserved
+        (RsslVerif.Model.MetaFront.NameSrc.input
+          { nss := [(none, "NS1")], structs := [], globals := [(none, "g_t"), (some 0, "g_t")], funcs := [] })).toOption.map
+      (fun names => ((RsslVerif.Model.MetaFront.leaf names .global 0).toOption,
+                     (RsslVerif.Model.MetaFront.leaf names .global 1).toOption)) =
+      some (some "g_t", some "g_t") := by
+  decide +kernel
 
 /-! Non-vacuity of the hypotheses above. -/
 example : hlslAnnot (paramsFor .HlslForVulkan true) (.global "g" (some 1) false (some .Texture2D) (.sized 3) false .extern)
